@@ -21,7 +21,8 @@ SidClauses(e) == LET x == MkFromString(e.call) IN
      C("fields", e.obs.fields = x.fields),
      C("string", e.obs.string = x.string),
      C("bool", e.obs.truthy = (x.fields # <<>>)),
-     C("len", e.obs.len = Len(x.fields)) >>
+     C("len", e.obs.len = Len(x.fields)),
+     C("same_after_the_user_edited_fields", e.obs.raised # "" \/ (Same(e.obs.again, x) /\ e.obs.again.len = Len(x.fields))) >>
 
 \* ---- C02: every form of a typed Sid denotes the same Sid
 FormOk(f, x) == f.raised = "" /\ Same(f, x) /\ f.eq /\ f.req /\ f.heq
@@ -34,7 +35,7 @@ FormsClauses(e) == LET x == MkFromString(e.call) IN
   \o [i \in DOMAIN e.obs.forms |-> C("form_" \o e.obs.forms[i].name, FormOk(e.obs.forms[i], x))]
 
 \* ---- C03: navigation
-NavBase(e) == MkFromString(e.call)
+NavBase(e) == MkFromString(e.call)     \* (a uri in the call forces the type)
 GetAsOk(g, x) == g.raised = "" /\ Same(g, GetAs(x, g.key))
 NavClauses(e) == LET x == NavBase(e)  o == e.obs IN
   IF o.raised # "" THEN << C("noraise", FALSE) >>
@@ -43,7 +44,8 @@ NavClauses(e) == LET x == NavBase(e)  o == e.obs IN
      C("parent", o.parent.raised = "" /\ Same(o.parent, Parent(x))),
      C("parent_one_less", x.type = "" \/ Len(x.fields) = 1 \/ Len(o.parent.fields) = Len(x.fields) - 1),
      C("parent_is_prefix", x.type = "" \/ Len(x.fields) = 1 \/ o.parent.fields = SubSeq(x.fields, 1, Len(x.fields) - 1)),
-     C("div_back", x.type = "" \/ Len(x.fields) = 1 \/ (o.div.raised = "" /\ Same(o.div, x))),
+     \* ("/" types the extended string naturally: for a Sid whose type was forced by a uri it may give the natural type)
+     C("div_back", x.type = "" \/ Len(x.fields) = 1 \/ e.call.uri # <<>> \/ (o.div.raised = "" /\ Same(o.div, x))),
      C("walk", o.walk.raised = "" /\ (x.type = "" \/ (o.walk.steps = Len(x.fields) - 1 /\ Len(o.walk.end.fields) = 1))),
      C("keytype", o.keytype.raised = "" /\ o.keytype.value = KeyType(x)),
      C("basetype", o.basetype.raised = "" /\ o.basetype.value = BaseType(x)),
@@ -175,7 +177,7 @@ ToPathClauses(e) == LET x == MkFromString([op |-> "sid", uri |-> e.call.uri, seg
   << C("self", Same(o.self, x)) >>
   \o [i \in DOMAIN o.cfgs |-> C("cfg_" \o o.cfgs[i].cfg, CfgOk(o.cfgs[i], x))]
   \o << C("noraise", \A i \in DOMAIN o.cfgs : o.cfgs[i].raised = "" /\ o.cfgs[i].kw.raised = ""),
-        C("same_up_to_root", \A i, j \in DOMAIN o.cfgs : o.cfgs[i].path = o.cfgs[j].path),
+        C("same_up_to_root", \A i, j \in DOMAIN o.cfgs : SameShapeCfg(o.cfgs[i].cfg, o.cfgs[j].cfg) => o.cfgs[i].path = o.cfgs[j].path),
         C("roundtrip", \A i \in DOMAIN o.cfgs : o.cfgs[i].is_none \/ (o.cfgs[i].back.raised = "" /\ Same(o.cfgs[i].back, x))) >>
 
 \* ---- C06: arbitrary paths
@@ -228,6 +230,17 @@ SidReadsClauses(e) == LET idx == UIdx[FALSE][e.call.univ]  x == ResolveFirst(e.c
      C("leaf_no_children", x.type = "" \/ KeyType(x) # LeafKeyOf(BaseType(x)) \/ o.children.res = <<>>),
      C("parent_closed", \A i \in DOMAIN o.L : Len(o.L[i]) = 1 \/ \E n \in 1..(Len(o.L[i]) - 1) : SubSeq(o.L[i], 1, n) \in ToSet(o.L)) >>
 
+\* ---- C09: get_last(key) is the single answer of the '>' search, and follows the data
+GetLastSid(idx, x, key) == LET r == GetLastOf(idx, x, key) IN IF r = {} THEN EmptySid ELSE ResolveFirst(CHOOSE q \in r : TRUE)
+GetLastClauses(e) == LET idx == UIdx[FALSE][e.call.univ]  x == ResolveFirst(e.call.segs)  o == e.obs
+                         exp == GetLastSid(idx, x, e.call.key) IN
+  << C("noraise", o.raised = ""),
+     C("get_last", Same(o.first, exp)),
+     C("one_answer_with_the_key", o.first.type = "" \/ DHas(o.first.fields, e.call.key)),
+     \* a greater value created next to it is the new answer; once it is removed again, the old answer is back
+     C("follows_the_data", ~o.created \/ Same(o.second, o.bumped)),
+     C("back_after_removal", Same(o.third, exp)) >>
+
 \* ---- C16: a Getter yields one record per found Sid, in the same order
 RecSet(r) == {<<r[i][1], r[i][2]>> : i \in DOMAIN r}
 ExpectedRec(c, segs) ==
@@ -250,6 +263,9 @@ GetterClauses(e) == LET c == e.call  o == e.obs  idx == UIdx[FALSE][c.univ]
      C("get_one", (o.found = <<>> /\ o.get_one = <<>>) \/ (o.found # <<>> /\ o.got # <<>> /\ o.get_one = o.got[1])),
      C("get_data_of_first", o.found = <<>> \/ RecSet(o.get_data) \in ExpectedRec(c, o.found[1])),
      C("get_attr", o.found = <<>> \/ o.get_attr = (IF SideDataOf(o.found[1]) = <<>> THEN None ELSE SideDataOf(o.found[1])[1][2])),
+     \* 'sid' is an attribute of the record like any other (GetFromPaths, and GetFromAll where the type has a Getter)
+     C("get_attr_sid", o.found = <<>> \/ (o.get_attr_sid[1] = JoinStr(o.found[1], "/") /\
+                         (o.get_attr_sid[2] = JoinStr(o.found[1], "/") \/ GetterOf(ResolveFirst(o.found[1]).type) = ""))),
      C("getfromall", x.sorted \/ x.err # "" \/
           {JoinStr(r, "/") : r \in UNION {AllHits(idx, u) : u \in {v \in us : GetterOf(v.type) # ""}}} = ToSet(o.all_sids)),
      C("getfromall_count", x.sorted \/ x.err # "" \/ Cardinality(ToSet(o.all_sids)) <= Len(o.all_sids)),
@@ -275,6 +291,7 @@ Clauses(e) ==
          [] e.call.op = "topath"  -> ToPathClauses(e)
          [] e.call.op = "finders" -> FindersClauses(e)
          [] e.call.op = "sidreads" -> SidReadsClauses(e)
+         [] e.call.op = "getlast" -> GetLastClauses(e)
          [] e.call.op = "getter" -> GetterClauses(e)
          [] e.call.op = "frompath" -> FromPathClauses(e)
          [] OTHER -> << C("unknown_op", FALSE) >>
@@ -305,6 +322,8 @@ Tag(e) ==
         "finders:" \o (IF AllPathBacked(e.call.search) THEN "pathbacked:" ELSE "mixed:")
                    \o (IF x.err # "" THEN "error" ELSE IF ~x.pre THEN "gt-precondition-false"
                        ELSE (IF x.sorted THEN "gt:" ELSE "star:") \o (IF x.res = {} THEN "nothing" ELSE "found"))
+  ELSE IF e.call.op = "getlast" THEN "getlast:" \o (IF e.obs.first.type = "" THEN "empty" ELSE "found") \o (IF e.obs.created THEN ":bumped" ELSE "")
+  ELSE IF e.call.op = "match" THEN "match:" \o (IF e.call.entry \in FindList(<<e.call.entry>>, e.call.search).res THEN "yes" ELSE "no")
   ELSE IF e.call.op = "sidreads" THEN LET x == ResolveFirst(e.call.segs) IN
         "sidreads:" \o (IF x.type = "" THEN "untyped" ELSE IF ExistsSid(UIdx[FALSE][e.call.univ], x) THEN "exists:" ELSE "missing:") \o x.type
   ELSE IF e.call.op = "getter" THEN "getter:" \o e.call.enc \o ":" \o (IF e.call.attrs = <<>> THEN "all" ELSE "attrs") \o ":" \o
